@@ -3,12 +3,14 @@
 package c02
 
 import (
+	"context"
 	"fmt"
 	"sort"
 	"testing"
 
 	"github.com/obolnetwork/charon/core/qbft"
 
+	"verifharness/consworld"
 	"verifharness/kit"
 	"verifharness/qbftsim"
 )
@@ -20,6 +22,7 @@ func TestCheck(t *testing.T) {
 	r.Rule("case = one consensus instance of the real qbft.Run, n in {3,4,5,6,7}, PRNG instance id (leader rotation), up to f Byzantine ids driven by an omniscient strategy library " +
 		"(equivocating leaders with real round-change quorums, vote splitting, forged prepared-claims, assembled DECIDED, replay with re-attached justifications, garbage) and/or absent members, " +
 		"random asynchronous schedule (any pending delivery / timer / input / start next; loss, duplication, partitions, small FIFO, failing or blocking Compare); " +
+		"plus a component world: clusters of 4 real consensus components over the in-memory network running duties with early / late / repeated Propose and Participate calls, every subscriber delivery judged; " +
 		"non-trivial = a round change happened or a Byzantine message passed isJustified; distinct = hash of the event trace")
 	r.Assume("message authenticity is provided by the wrapper layer (C05): the adversary never fabricates an honest source")
 	r.Assume("Byzantine behaviour is a strategy library plus random search, schedules are sampled")
@@ -29,6 +32,35 @@ func TestCheck(t *testing.T) {
 	}
 	r.Require("decisions", 100)
 	r.Require("byz_msgs_accepted", 100)
+
+	// Component world: the algorithm is only half of what decides a duty in production. Clusters of
+	// the real consensus component (Participate / Propose entry points, per-duty instance bookkeeping,
+	// transport, subscribers) run duties in which members obtain their proposals early, late (after
+	// their own subscriber was already handed the decision) or never, and retry; every subscriber
+	// delivery is judged.
+	if b, err := consworld.NewBeacon(context.Background()); err != nil {
+		r.Inconclusive("component world: beacon mock: %v", err)
+	} else {
+		worlds, duties := 12, 6
+		if r.Thorough() {
+			worlds, duties = 150, 8
+		}
+		report := func(mine bool) func(consworld.Finding, *consworld.Result) {
+			return func(f consworld.Finding, res *consworld.Result) {
+				if !mine {
+					r.Count("component_findings_of_the_sibling_property/"+f.Sig, 1)
+					return
+				}
+				r.Violation(-1, f.Sig, f.What, map[string]any{"duty": res.Duty.String(), "plan": res.Plan, "decisions": res.Decisions, "errors": res.Errors})
+			}
+		}
+		obs := consworld.RunBatch(t, b, r.Rand(-1, 77), worlds, duties, report(true), report(false))
+		for k, v := range obs {
+			r.Count(k, int64(v))
+		}
+		r.Require("component_members_decided", int64(worlds*duties*2))
+		r.Require("component_duties_with_a_quorum_of_late_proposals", int64(worlds))
+	}
 
 	n := r.N(6000, 150000)
 	r.Cases(n, 0, func(c *kit.Case) {
